@@ -55,6 +55,12 @@ SETS: Dict[str, List[Tuple[str, str]]] = {
 }
 
 
+# further pin sets live in pins/sets/<name>.json: a JSON list of [file relative to the repo, qualified name] pairs
+# (one file per property family, so that nobody has to edit this module)
+for _f in sorted((VERIF / "pins" / "sets").glob("*.json")) if (VERIF / "pins" / "sets").is_dir() else []:
+    SETS[_f.stem] = [tuple(x) for x in json.loads(_f.read_text())]
+
+
 def _strip(node: ast.AST) -> ast.AST:
     for n in ast.walk(node):
         body = getattr(n, "body", None)
